@@ -57,10 +57,11 @@ def lay_out(root: str, req: dict) -> None:
 def classify(exc) -> str:
     import bitproto.errors as errors
 
-    if isinstance(exc, _Exit):
-        return "exit:%s" % (exc.code,)
-    if isinstance(exc, SystemExit):
-        return "sysexit:%s" % (exc.code,)
+    if isinstance(exc, (_Exit, SystemExit)):
+        code = exc.code
+        if code is not None:
+            code = (int(code) & 0xFF) if isinstance(code, int) else 1
+        return "%s:%s" % ("exit" if isinstance(exc, _Exit) else "sysexit", code)
     if isinstance(exc, errors.ParserError):
         return "parser_error:" + type(exc).__name__
     if isinstance(exc, errors.RendererError):
@@ -124,7 +125,9 @@ def one(req: dict, variant: str) -> dict:
             raise _Exit(code)
 
         os._exit = fake_exit
-        sys.stderr, sys.stdout = io.StringIO(), io.StringIO()
+        from .seams import _Capture
+
+        sys.stderr, sys.stdout = _Capture(2), _Capture(1)
         outcome = "ok"
         try:
             if req.get("api") == "parse":
@@ -162,7 +165,7 @@ def one(req: dict, variant: str) -> dict:
 
                 ret = run_bitproto()
                 if ret not in (None, 0):
-                    outcome = "sysexit:%s" % (ret,)  # what `sys.exit(run_bitproto())` would do
+                    outcome = "sysexit:%s" % ((int(ret) & 0xFF) if isinstance(ret, int) else 1,)  # what `sys.exit(run_bitproto())` would do
         except BaseException as e:  # noqa
             outcome = classify(e)
         finally:
